@@ -150,6 +150,22 @@ pub fn run(args: &[&str]) -> String {
         ),
       }
     }
+    [op, t, j] if *op == "addj" || *op == "subj" => {
+      // a Duration that came in through serde (the type derives Deserialize: sub-second and negative spans are constructible
+      // that way only): whatever the arithmetic returns must be a canonical whole-second timestamp in range
+      let (Ok(u), Some(j)) = (t.parse::<i64>(), unhex(j).and_then(|b| String::from_utf8(b).ok())) else { return "bad-request".into() };
+      let Ok(ts) = Timestamp::from_unix(u) else { return "bad-request".into() };
+      let Ok(d) = serde_json::from_str::<Duration>(&j) else { return "u:refused".into() };
+      let add = *op == "addj";
+      match std::panic::catch_unwind(move || if add { ts.checked_add(d) } else { ts.checked_sub(d) }) {
+        Err(_) => "panic\t#FAIL:arith-panics:".into(),
+        Ok(None) => "u:none".into(),
+        Ok(Some(t2)) => with(
+          "u:some".into(),
+          oracle(&t2).or_else(|| if Timestamp::from_unix(t2.to_unix()).ok() != Some(t2) { Some(format!("arith-wrong:{} {} {} is not the whole-second timestamp of its own unix seconds", u, op, j)) } else { None }),
+        ),
+      }
+    }
     ["cmp", a, b] => {
       let (Ok(a), Ok(b)) = (a.parse::<i64>(), b.parse::<i64>()) else { return "bad-request".into() };
       let (Ok(ta), Ok(tb)) = (Timestamp::from_unix(a), Timestamp::from_unix(b)) else { return "bad-request".into() };
@@ -326,6 +342,13 @@ pub fn gen(thorough: bool, seed: u64, out: &mut impl Write) {
           }
         }
       }
+    }
+  }
+  // deserialised durations: [seconds, nanoseconds] of every sign and size
+  for t in [MIN, MIN + 1, 0, 1577836800, MAX - 1, MAX] {
+    for j in ["[0,0]", "[1,0]", "[1,500000000]", "[0,1]", "[0,999999999]", "[0,-1]", "[-1,0]", "[-1,-500000000]", "[86400,1]", "[9223372036854775807,999999999]", "[-9223372036854775808,-999999999]", "[1,1000000000]", "[1,-1]", "1", "{}", "[1]", "[1.5,0]"] {
+      writeln!(out, "C13 addj {} {}", t, hex(j.as_bytes())).unwrap();
+      writeln!(out, "C13 subj {} {}", t, hex(j.as_bytes())).unwrap();
     }
   }
   for _ in 0..(if thorough { 50_000 } else { 3_000 }) {
